@@ -514,4 +514,234 @@ Proof.
     rewrite segs_head_nonpivot by lia. rewrite Eb. cbn [fst snd]. fold la. rewrite Ex. reflexivity.
 Qed.
 
+Hypothesis veq_eq : forall x y, veq x y = true <-> x = y.
+
+Definition ins_present_post (cur : nat) (v0 v : V) (l' : seg) (r : ins_res K V) : Prop :=
+  match r with
+  | INoop => v0 = v
+  | IUpd n' => v0 <> v /\ erase_n n' = bnode cur l'
+  | IIns _ => False
+  end.
+
+Lemma ins_present : forall cur fuel n a b k v0 v target,
+  cur < fuel -> target = Nat.min (layer k) cur ->
+  erase_n n = bnode cur (a ++ (k, v0) :: b) -> all_lt a k -> all_gt b k ->
+  oks (ins _ _ cmp veq fuel cur target k v n) (ins_present_post cur v0 v (a ++ (k, v) :: b)).
+Proof.
+  induction cur as [cur IH] using lt_wf_ind; intros fuel n a b k v0 v target Hf Ht He Ha Hb.
+  destruct fuel as [|f]; [lia|]. cbn [ins]. apply oks_tick.
+  destruct (segs cur a) as [s0a psa] eqn:Ea. destruct (segs cur ((k, v0) :: b)) as [s0b psb] eqn:Eb.
+  destruct (set_last_seg K V s0a psa (last_seg K V s0a psa ++ s0b)) as [s0' psa'] eqn:Es.
+  destruct (cut_node _ _ _ _ _ _ _ _ _ _ _ He Ha (all_ge_present _ _ v0 Hb) Ea Eb Es) as (H0 & Hl & Hr).
+  destruct (span_lt _ _ cmp k (n_es _ _ n)) as [les rs]. cbn [fst snd] in Hl, Hr.
+  pose proof (segs_Forall (fun x => lt (fst x) k) cur a Ha) as [Hla0 Hla]. rewrite Ea in Hla0, Hla. cbn [fst snd] in Hla0, Hla.
+  pose proof (segs_Forall (fun x => lt k (fst x)) cur b Hb) as [Hgb0 Hgb].
+  set (la := last_seg K V s0a psa) in *.
+  assert (Hla' : all_lt la k) by (apply last_seg_Forall; assumption).
+  destruct (Nat.leb cur (layer k)) eqn:Epiv.
+  - (* k is a pivot of this node: replace the value *)
+    apply Nat.leb_le in Epiv. rewrite segs_head_pivot in Eb by exact Epiv. inversion Eb; subst s0b psb.
+    destruct (head_entry _ _ _ _ _ _ Hr) as (e & rs' & -> & Hk & Hv & Hel & Hrs' & Hh).
+    rewrite Hh. replace (Nat.eqb cur target) with true by (symmetry; apply Nat.eqb_eq; lia). cbn [negb].
+    destruct e as [[k' v'] l']. cbn [ekey eval elink fst snd] in Hk, Hv, Hel. subst k' v'.
+    destruct (veq v0 v) eqn:Ev.
+    + apply oks_ret. apply veq_eq in Ev. exact Ev.
+    + apply oks_ret. split; [intros E; apply veq_eq in E; congruence|].
+      rewrite erase_mk_dirty, map_app. cbn [map]. change (erase_e (k, v, l')) with (k, v, erase_l l').
+      rewrite H0, Hl, Hel, Hrs'.
+      change ((k, v, subl cur (fst (segs cur b))) :: mk_es (subl cur) (snd (segs cur b)))
+        with (mk_es (subl cur) ((k, v, fst (segs cur b)) :: snd (segs cur b))).
+      rewrite <- mk_es_app. symmetry. apply bnode_of_segs. rewrite segs_app, Ea.
+      rewrite segs_head_pivot by lia. fold la. rewrite Es. reflexivity.
+  - (* above the key's layer: descend *)
+    apply Nat.leb_gt in Epiv. rewrite segs_head_nonpivot in Eb by exact Epiv. inversion Eb; subst s0b psb.
+    assert (Hh : hits _ _ cmp k rs = false).
+    { eapply hits_false_gt; [exact Hr|]. eapply Forall_impl; [|exact Hgb]. intros p [Hp _]. exact Hp. }
+    rewrite Hh. replace (Nat.eqb cur target) with false by (symmetry; apply Nat.eqb_neq; lia).
+    assert (Hchild : erase_l (last_link _ _ (n_l0 _ _ n) les) = subl cur (la ++ (k, v0) :: fst (segs cur b))).
+    { rewrite last_link_erase, H0, Hl, last_link_mk_es.
+      pose proof (last_seg_set K V s0a psa (la ++ (k, v0) :: fst (segs cur b))) as Q. rewrite Es in Q. rewrite Q. reflexivity. }
+    destruct cur as [|cur']; [lia|]. cbn [Build.subl] in Hchild.
+    eapply oks_bind; [exact (descend_child cur' _ _ Hchild)|]. intros c Hc. cbn beta in Hc.
+    replace (S cur' - 1) with cur' by lia.
+    eapply oks_bind; [apply (IH cur') with (a := la) (b := fst (segs (S cur') b)) (v0 := v0); [lia|lia|lia|exact Hc|exact Hla'|exact Hgb0]|].
+    intros r Hr'. destruct r as [|c'|c']; unfold ins_present_post in Hr'; [apply oks_ret; exact Hr'| |contradiction].
+    destruct Hr' as [Hne Hc']. apply oks_ret. split; [exact Hne|].
+    destruct (set_last_link _ _ (n_l0 _ _ n) les (link_of _ _ c')) as [l0' les'] eqn:Esl.
+    rewrite erase_mk_dirty, map_app.
+    apply set_last_link_erase' in Esl. rewrite H0, Hl, link_of_erase, Hc' in Esl.
+    change (link_of _ _ (bnode cur' (la ++ (k, v) :: fst (segs (S cur') b))))
+      with (subl (S cur') (la ++ (k, v) :: fst (segs (S cur') b))) in Esl.
+    rewrite set_last_link_mk_es in Esl.
+    pose proof (set_last_seg_twice K V s0a psa (la ++ (k, v0) :: fst (segs (S cur') b)) (la ++ (k, v) :: fst (segs (S cur') b))) as Q.
+    rewrite Es in Q. rewrite Q in Esl.
+    destruct (set_last_seg K V s0a psa (la ++ (k, v) :: fst (segs (S cur') b))) as [sx psx] eqn:Ex. inversion Esl.
+    rewrite Hr, <- mk_es_app. change (build cur' sx) with (subl (S cur') sx).
+    symmetry. apply bnode_of_segs. rewrite segs_app, Ea.
+    rewrite segs_head_nonpivot by lia. cbn [fst snd]. fold la. rewrite Ex. reflexivity.
+Qed.
+
+(** * Delete below the root *)
+Lemma merge_subl d f (x y : link) (sa sb : seg) :
+  d <= f -> erase_l x = subl d sa -> erase_l y = subl d sb ->
+  oks (merge _ _ f x y) (fun r => erase_l r = subl d (sa ++ sb)).
+Proof.
+  intros Hf Hx Hy. destruct d as [|d'].
+  - cbn [Build.subl] in *. apply erase_l_nil in Hx. apply erase_l_nil in Hy. subst x y.
+    destruct f; cbn [merge]; apply oks_ret; reflexivity.
+  - cbn [Build.subl] in *. apply merge_spec; [lia|assumption..].
+Qed.
+
+Lemma del_present : forall cur fuel n a b k v0 target,
+  cur < fuel -> target = Nat.min (layer k) cur ->
+  erase_n n = bnode cur (a ++ (k, v0) :: b) -> all_lt a k -> all_gt b k ->
+  oks (del _ _ cmp veq fuel cur target k v0 n) (fun n' => erase_n n' = bnode cur (a ++ b)).
+Proof.
+  induction cur as [cur IH] using lt_wf_ind; intros fuel n a b k v0 target Hf Ht He Ha Hb.
+  destruct fuel as [|f]; [lia|]. cbn [del]. apply oks_tick.
+  destruct (segs cur a) as [s0a psa] eqn:Ea. destruct (segs cur ((k, v0) :: b)) as [s0b psb] eqn:Eb.
+  destruct (set_last_seg K V s0a psa (last_seg K V s0a psa ++ s0b)) as [s0' psa'] eqn:Es.
+  destruct (cut_node _ _ _ _ _ _ _ _ _ _ _ He Ha (all_ge_present _ _ v0 Hb) Ea Eb Es) as (H0 & Hl & Hr).
+  destruct (span_lt _ _ cmp k (n_es _ _ n)) as [les rs]. cbn [fst snd] in Hl, Hr.
+  pose proof (segs_Forall (fun x => lt (fst x) k) cur a Ha) as [Hla0 Hla]. rewrite Ea in Hla0, Hla. cbn [fst snd] in Hla0, Hla.
+  pose proof (segs_Forall (fun x => lt k (fst x)) cur b Hb) as [Hgb0 Hgb].
+  set (la := last_seg K V s0a psa) in *.
+  assert (Hla' : all_lt la k) by (apply last_seg_Forall; assumption).
+  destruct (Nat.leb cur (layer k)) eqn:Epiv.
+  - (* k is a pivot of this node: merge its two neighbours *)
+    apply Nat.leb_le in Epiv. rewrite segs_head_pivot in Eb by exact Epiv. inversion Eb; subst s0b psb.
+    destruct (head_entry _ _ _ _ _ _ Hr) as (e & rs' & -> & Hk & Hv & Hel & Hrs' & Hh).
+    rewrite Hh. replace (Nat.eqb cur target) with true by (symmetry; apply Nat.eqb_eq; lia). cbn [negb].
+    destruct e as [[k' v'] l']. cbn [ekey eval elink fst snd] in Hk, Hv, Hel. subst k' v'.
+    replace (veq v0 v0) with true by (symmetry; apply veq_eq; reflexivity).
+    assert (Hll : erase_l (last_link _ _ (n_l0 _ _ n) les) = subl cur la).
+    { rewrite last_link_erase, H0, Hl, last_link_mk_es.
+      pose proof (last_seg_set K V s0a psa (la ++ [])) as Q. rewrite Es in Q. rewrite Q. apply f_equal. apply app_nil_r. }
+    eapply oks_bind; [exact (merge_subl cur f _ _ la (fst (segs cur b)) ltac:(lia) Hll Hel)|].
+    intros m Hm. cbn beta in Hm.
+    destruct (set_last_link _ _ (n_l0 _ _ n) les m) as [l0' les'] eqn:Esl.
+    apply oks_ret. rewrite erase_mk_dirty, map_app.
+    apply set_last_link_erase' in Esl. rewrite H0, Hl, Hm, set_last_link_mk_es in Esl.
+    pose proof (set_last_seg_twice K V s0a psa (la ++ []) (la ++ fst (segs cur b))) as Q. rewrite Es in Q. rewrite Q in Esl.
+    destruct (set_last_seg K V s0a psa (la ++ fst (segs cur b))) as [sx psx] eqn:Ex. inversion Esl.
+    rewrite Hrs', <- mk_es_app. symmetry. apply bnode_of_segs. rewrite segs_app, Ea.
+    destruct (segs cur b) as [sb0 psb0]. cbn [fst snd] in *. fold la. rewrite Ex. reflexivity.
+  - (* above the key's layer: descend *)
+    apply Nat.leb_gt in Epiv. rewrite segs_head_nonpivot in Eb by exact Epiv. inversion Eb; subst s0b psb.
+    assert (Hh : hits _ _ cmp k rs = false).
+    { eapply hits_false_gt; [exact Hr|]. eapply Forall_impl; [|exact Hgb]. intros p [Hp _]. exact Hp. }
+    rewrite Hh. replace (Nat.eqb cur target) with false by (symmetry; apply Nat.eqb_neq; lia).
+    assert (Hchild : erase_l (last_link _ _ (n_l0 _ _ n) les) = subl cur (la ++ (k, v0) :: fst (segs cur b))).
+    { rewrite last_link_erase, H0, Hl, last_link_mk_es.
+      pose proof (last_seg_set K V s0a psa (la ++ (k, v0) :: fst (segs cur b))) as Q. rewrite Es in Q. rewrite Q. reflexivity. }
+    destruct cur as [|cur']; [lia|]. cbn [Build.subl] in Hchild.
+    destruct (load_build cur' _ _ Hchild ltac:(destruct la; discriminate)) as [Lc Nc].
+    replace (S cur' - 1) with cur' by lia.
+    assert (Hrest : forall c, erase_n c = bnode cur' (la ++ (k, v0) :: fst (segs (S cur') b)) ->
+      oks (let* c'0 := del K V cmp veq f cur' target k v0 c in
+           (let (l0', les') := set_last_link K V (n_l0 K V n) les (link_of K V c'0) in
+            ret (mk_dirty K V l0' (les' ++ rs))))
+          (fun n' => erase_n n' = bnode (S cur') (a ++ b))).
+    { intros c Hc.
+      eapply oks_bind; [apply (IH cur') with (a := la) (b := fst (segs (S cur') b)); [lia|lia|lia|exact Hc|exact Hla'|exact Hgb0]|].
+      intros c' Hc'. cbn beta in Hc'.
+      destruct (set_last_link _ _ (n_l0 _ _ n) les (link_of _ _ c')) as [l0' les'] eqn:Esl.
+      apply oks_ret. rewrite erase_mk_dirty, map_app.
+      apply set_last_link_erase' in Esl. rewrite H0, Hl, link_of_erase, Hc' in Esl.
+      change (link_of _ _ (bnode cur' (la ++ fst (segs (S cur') b)))) with (subl (S cur') (la ++ fst (segs (S cur') b))) in Esl.
+      rewrite set_last_link_mk_es in Esl.
+      pose proof (set_last_seg_twice K V s0a psa (la ++ (k, v0) :: fst (segs (S cur') b)) (la ++ fst (segs (S cur') b))) as Q.
+      rewrite Es in Q. rewrite Q in Esl.
+      destruct (set_last_seg K V s0a psa (la ++ fst (segs (S cur') b))) as [sx psx] eqn:Ex. inversion Esl.
+      rewrite Hr, <- mk_es_app. change (build cur' sx) with (subl (S cur') sx).
+      symmetry. apply bnode_of_segs. rewrite segs_app, Ea.
+      destruct (segs (S cur') b) as [sb0 psb0]. cbn [fst snd] in *. fold la. rewrite Ex. reflexivity. }
+    destruct (last_link _ _ (n_l0 _ _ n) les) as [|c0|h0 c0|h0]; [contradiction|..];
+      (apply (oks_bind _ _ _ _ Lc); intros c Hc; cbn beta in Hc; apply Hrest; exact Hc).
+Qed.
+
+(** failing calls: a delete of an absent key, or with a non-matching value, returns an error *)
+Definition fails {A} (m : M A) : Prop := exists t, m = (t, Err).
+
+Lemma fails_bind_r {A B} (m : M A) (f : A -> M B) (P : A -> Prop) :
+  oks m P -> (forall a, P a -> fails (f a)) -> fails (bind m f).
+Proof.
+  intros (t & a & E & Pa) H. destruct (H a Pa) as (t' & E'). exists (t ++ t'). unfold bind. rewrite E, E'. reflexivity.
+Qed.
+Lemma fails_tick {B} e (k : M B) : fails k -> fails (bind (tick e) (fun _ => k)).
+Proof. intros H. apply (fails_bind_r (tick e) (fun _ => k) (fun _ => True)); [exists [e], tt; split; [reflexivity|exact I]|intros; exact H]. Qed.
+Lemma fails_bind_l {A B} (m : M A) (f : A -> M B) : fails m -> fails (bind m f).
+Proof. intros (t & E). exists t. unfold bind. rewrite E. reflexivity. Qed.
+Lemma fails_fail {A} : fails (@fail A).
+Proof. exists []. reflexivity. Qed.
+
+Lemma del_absent : forall cur fuel n a b k v target,
+  cur < fuel -> target = Nat.min (layer k) cur ->
+  erase_n n = bnode cur (a ++ b) -> all_lt a k -> all_gt b k ->
+  fails (del _ _ cmp veq fuel cur target k v n).
+Proof.
+  induction cur as [cur IH] using lt_wf_ind; intros fuel n a b k v target Hf Ht He Ha Hb.
+  destruct fuel as [|f]; [lia|]. cbn [del]. apply fails_tick.
+  destruct (segs cur a) as [s0a psa] eqn:Ea. destruct (segs cur b) as [s0b psb] eqn:Eb.
+  destruct (set_last_seg K V s0a psa (last_seg K V s0a psa ++ s0b)) as [s0' psa'] eqn:Es.
+  destruct (cut_node _ _ _ _ _ _ _ _ _ _ _ He Ha (all_gt_ge _ _ Hb) Ea Eb Es) as (H0 & Hl & Hr).
+  destruct (span_lt _ _ cmp k (n_es _ _ n)) as [les rs]. cbn [fst snd] in Hl, Hr.
+  pose proof (segs_Forall (fun x => lt k (fst x)) cur b Hb) as [Hgb0 Hgb]. rewrite Eb in Hgb0, Hgb. cbn [fst snd] in Hgb0, Hgb.
+  pose proof (segs_Forall (fun x => lt (fst x) k) cur a Ha) as [Hla0 Hla]. rewrite Ea in Hla0, Hla. cbn [fst snd] in Hla0, Hla.
+  assert (Hh : hits _ _ cmp k rs = false).
+  { eapply hits_false_gt; [exact Hr|]. eapply Forall_impl; [|exact Hgb]. intros p [Hp _]. exact Hp. }
+  rewrite Hh. destruct (Nat.eqb cur target) eqn:Ect; [apply fails_fail|].
+  apply Nat.eqb_neq in Ect.
+  set (la := last_seg K V s0a psa) in *.
+  assert (Hla' : all_lt la k) by (apply last_seg_Forall; assumption).
+  assert (Hchild : erase_l (last_link _ _ (n_l0 _ _ n) les) = subl cur (la ++ s0b)).
+  { rewrite last_link_erase, H0, Hl, last_link_mk_es.
+    pose proof (last_seg_set K V s0a psa (la ++ s0b)) as Q. rewrite Es in Q. rewrite Q. reflexivity. }
+  destruct cur as [|cur']; [lia|]. cbn [Build.subl] in Hchild.
+  destruct (la ++ s0b) as [|x r] eqn:E.
+  - rewrite build_nil in Hchild. apply erase_l_nil in Hchild. rewrite Hchild. apply fails_fail.
+  - destruct (load_build cur' _ _ Hchild ltac:(discriminate)) as [Lc Nc].
+    replace (S cur' - 1) with cur' by lia.
+    destruct (last_link _ _ (n_l0 _ _ n) les) as [|c0|h0 c0|h0]; [contradiction|..];
+      (apply (fails_bind_r _ _ _ Lc); intros c Hc; cbn beta in Hc; rewrite <- E in Hc;
+       apply fails_bind_l;
+       apply (IH cur') with (a := la) (b := s0b); [lia|lia|lia|exact Hc|exact Hla'|exact Hgb0]).
+Qed.
+
+Lemma del_wrong_value : forall cur fuel n a b k v0 v target,
+  cur < fuel -> target = Nat.min (layer k) cur -> v0 <> v ->
+  erase_n n = bnode cur (a ++ (k, v0) :: b) -> all_lt a k -> all_gt b k ->
+  fails (del _ _ cmp veq fuel cur target k v n).
+Proof.
+  induction cur as [cur IH] using lt_wf_ind; intros fuel n a b k v0 v target Hf Ht Hne He Ha Hb.
+  destruct fuel as [|f]; [lia|]. cbn [del]. apply fails_tick.
+  destruct (segs cur a) as [s0a psa] eqn:Ea. destruct (segs cur ((k, v0) :: b)) as [s0b psb] eqn:Eb.
+  destruct (set_last_seg K V s0a psa (last_seg K V s0a psa ++ s0b)) as [s0' psa'] eqn:Es.
+  destruct (cut_node _ _ _ _ _ _ _ _ _ _ _ He Ha (all_ge_present _ _ v0 Hb) Ea Eb Es) as (H0 & Hl & Hr).
+  destruct (span_lt _ _ cmp k (n_es _ _ n)) as [les rs]. cbn [fst snd] in Hl, Hr.
+  pose proof (segs_Forall (fun x => lt (fst x) k) cur a Ha) as [Hla0 Hla]. rewrite Ea in Hla0, Hla. cbn [fst snd] in Hla0, Hla.
+  pose proof (segs_Forall (fun x => lt k (fst x)) cur b Hb) as [Hgb0 Hgb].
+  set (la := last_seg K V s0a psa) in *.
+  assert (Hla' : all_lt la k) by (apply last_seg_Forall; assumption).
+  destruct (Nat.leb cur (layer k)) eqn:Epiv.
+  - apply Nat.leb_le in Epiv. rewrite segs_head_pivot in Eb by exact Epiv. inversion Eb; subst s0b psb.
+    destruct (head_entry _ _ _ _ _ _ Hr) as (e & rs' & -> & Hk & Hv & Hel & Hrs' & Hh).
+    rewrite Hh. replace (Nat.eqb cur target) with true by (symmetry; apply Nat.eqb_eq; lia). cbn [negb].
+    destruct e as [[k' v'] l']. cbn [ekey eval elink fst snd] in Hk, Hv, Hel. subst k' v'.
+    destruct (veq v0 v) eqn:Ev; [apply veq_eq in Ev; contradiction|apply fails_fail].
+  - apply Nat.leb_gt in Epiv. rewrite segs_head_nonpivot in Eb by exact Epiv. inversion Eb; subst s0b psb.
+    assert (Hh : hits _ _ cmp k rs = false).
+    { eapply hits_false_gt; [exact Hr|]. eapply Forall_impl; [|exact Hgb]. intros p [Hp _]. exact Hp. }
+    rewrite Hh. replace (Nat.eqb cur target) with false by (symmetry; apply Nat.eqb_neq; lia).
+    assert (Hchild : erase_l (last_link _ _ (n_l0 _ _ n) les) = subl cur (la ++ (k, v0) :: fst (segs cur b))).
+    { rewrite last_link_erase, H0, Hl, last_link_mk_es.
+      pose proof (last_seg_set K V s0a psa (la ++ (k, v0) :: fst (segs cur b))) as Q. rewrite Es in Q. rewrite Q. reflexivity. }
+    destruct cur as [|cur']; [lia|]. cbn [Build.subl] in Hchild.
+    destruct (load_build cur' _ _ Hchild ltac:(destruct la; discriminate)) as [Lc Nc].
+    replace (S cur' - 1) with cur' by lia.
+    destruct (last_link _ _ (n_l0 _ _ n) les) as [|c0|h0 c0|h0]; [contradiction|..];
+      (apply (fails_bind_r _ _ _ Lc); intros c Hc; cbn beta in Hc; apply fails_bind_l;
+       apply (IH cur') with (a := la) (b := fst (segs (S cur') b)) (v0 := v0); [lia|lia|lia|exact Hne|exact Hc|exact Hla'|exact Hgb0]).
+Qed.
+
 End CANON.
